@@ -12,6 +12,7 @@ SPEC = dict(
                "Well-formed lists of 300-7000 entries (sizes clustered just above powers of two) are loaded and searched under processor counts 1-256 "
                "(runtime.GOMAXPROCS), and every string constant of the tree under test (go/parser over internal/ and cmd/) is used as a query in "
                "systematic variants (each of its words before / after it, doubled, reversed, upper-cased) with the query analysis on and off. "
+               "A third of the files also go through the retrying loader with assorted content in <file>.backup beside them (a usable database or an error, never neither). "
                "A second engine runs the built binary on generated files whose entries hold wide, combining and multi-byte texts, in every output format.",
     level_note="Ordinary build (no cgo/unsafe in the module or its dependencies, so sanitizers add nothing). Child memory capped with ulimit -v.",
     engines=[dict(name="totality", shards=T(16, 16), timeout=T(1200, 7200)),
@@ -22,11 +23,11 @@ SPEC = dict(
     floors=T({"files-wellformed-block": 150, "files-wellformed-flow": 150, "files-wellformed-utf16": 100, "files-wrong-shape": 150, "files-damaged": 150, "files-mutated": 150,
               "files-random-bytes": 150, "files-deep": 30, "load-ok": 1000, "load-error": 500, "calls-SearchUniversal": 8000,
               "calls-RecoverFromSearchFailure": 8000, "distinct_nontrivial": 500,
-              "cli-runs-table": 200, "cli-runs-with-results": 150, "files-wellformed-sized": 150, "sized-over-4096": 20, "sized-procs-64": 5, "sized-procs-1": 5, "dictionary-queries": 20000},
+              "cli-runs-table": 200, "cli-runs-with-results": 150, "cli-runs-with-a-backup-file-only": 30, "calls-LoadDatabaseWithFallback": 800, "files-wellformed-sized": 150, "sized-over-4096": 20, "sized-procs-64": 5, "sized-procs-1": 5, "dictionary-queries": 20000},
              {"files-wellformed-block": 1500, "files-wellformed-flow": 1500, "files-wellformed-utf16": 1000, "files-wrong-shape": 1500, "files-damaged": 1500, "files-mutated": 1500,
               "files-random-bytes": 1500, "files-deep": 300, "load-ok": 10000, "load-error": 5000, "calls-SearchUniversal": 80000,
               "calls-RecoverFromSearchFailure": 80000, "distinct_nontrivial": 5000,
-              "cli-runs-table": 5000, "cli-runs-with-results": 5000, "files-wellformed-sized": 4000, "sized-over-4096": 500, "sized-procs-64": 150, "sized-procs-1": 150, "dictionary-queries": 100000}),
+              "cli-runs-table": 5000, "cli-runs-with-results": 5000, "cli-runs-with-a-backup-file-only": 900, "calls-LoadDatabaseWithFallback": 25000, "files-wellformed-sized": 4000, "sized-over-4096": 500, "sized-procs-64": 150, "sized-procs-1": 150, "dictionary-queries": 100000}),
     assumptions=["'not-found' / 'parse error' are recognised by the message class of errors.NewDatabaseNotFoundError / NewDatabaseParseError",
                  "an empty document / null / [] is accepted either as an empty list or as a parse error (not asserted)"],
 )
